@@ -150,6 +150,9 @@ def rule_d(R, ctx):
             return "EQ"
         if term[0] == "call" and callee_match(term[1], "std::option::Option::is_none") and not term_has_field(term, "ClientState.data"):
             return "NEWNONE"
+        # `new` is None exactly when entry.json == NULL_STR (the formula engine expands the local through its definitions)
+        if term[0] == "call" and term[1].endswith("::eq") and term_has_field(term, "AwarenessUpdateEntry.json"):
+            return "NEWNONE"
         if term[0] == "call" and callee_match(term[1], "std::option::Option::is_some") and term_has_field(term, "ClientState.data"):
             return "HASDATA"
         if term[0] == "call" and term[1].endswith("::eq") and term_has_call(term, "yrs::doc::Doc::client_id"):
@@ -210,7 +213,7 @@ def _is_state_atom(key, term):
     if term is None:
         return False
     txt = key
-    return ("clock" in txt or "data" in txt or "client_id" in txt or "is_none" in txt or " is Some" in txt) and "Iterator" not in txt.split("(")[0]
+    return ("clock" in txt or "data" in txt or "client_id" in txt or "is_none" in txt or " is Some" in txt or ".json" in txt) and "Iterator" not in txt.split("(")[0]
 
 
 def check(ctx, R):
